@@ -3,7 +3,8 @@ a `prog` (straight-line list of constructor calls, JSON) to a real Python graph 
 and the canonical description of a built SynthDef.
 
 prog = {"ir": [default, ...], "kr": [default, ...], "ins": [instr, ...]}
-arg   = ["c", "p/q"] | ["v", i, k] (channel k of the value of instruction i) | ["p", "ir"|"kr", j]
+arg   = ["c", "p/q"] | ["c", "p/q", "i"] (the same number written as a Python int) | ["c", "0", "z"] (-0.0)
+      | ["v", i, k] (channel k of the value of instruction i) | ["p", "ir"|"kr", j]
 instr = ["U", name, rate, [arg...]] | ["un", pyname, a] | ["bin", pyname, a, b]
       | ["madd", a, b, c] | ["sum", [arg...]] | ["sum3", a, b, c] | ["sum4", a, b, c, d]
       | ["out", rate, bus, [arg...]] | ["raise", "exc"|"base"]
@@ -116,6 +117,10 @@ def make_func(prog):
 
         def arg(a):
             if a[0] == 'c':
+                if len(a) > 2 and a[2] == 'i' and Fraction(a[1]).denominator == 1:
+                    return int(Fraction(a[1]))          # int 0 / 1 / -1 / ... instead of float
+                if len(a) > 2 and a[2] == 'z' and Fraction(a[1]) == 0:
+                    return -0.0
                 return float(Fraction(a[1]))
             if a[0] == 'p':
                 return params[(0 if a[1] == 'ir' else nir) + a[2]]
@@ -205,18 +210,34 @@ def describe(sd):
     """Canonical final structure of a built SynthDef."""
     import sc3.synth.ugen as ugn
     units = []
-    for u in sd._children:
+    bad = []      # two-site consistency: what the writer will use (_synth_index, _output_index) vs the actual objects
+    for k, u in enumerate(sd._children):
         ins = []
+        if u._synth_index != k:
+            bad.append('child %d (%s) has _synth_index %r' % (k, u.name, u._synth_index))
+        if getattr(u, '_synthdef', sd) is not sd:
+            bad.append('child %d (%s) belongs to another definition' % (k, u.name))
         for i in u.inputs:
             if isinstance(i, (int, float)):
                 ins.append(['c', fr(i)])
             else:
                 ins.append(['u', i._synth_index, i._output_index])
+                src = i.source_ugen if isinstance(i, ugn.OutputProxy) else i
+                j = src._synth_index
+                if not (isinstance(j, int) and 0 <= j < len(sd._children)) or sd._children[j] is not src:
+                    bad.append('input of child %d (%s) refers to index %r which is not its source unit' % (k, u.name, j))
+                elif j >= k:
+                    bad.append('child %d (%s) reads child %d which is not before it' % (k, u.name, j))
+                elif not (0 <= i._output_index < max(1, src._num_outputs())):
+                    bad.append('child %d (%s) reads output %r of child %d which has %d outputs' % (k, u.name, i._output_index, j, src._num_outputs()))
         units.append([u.name, u.rate if u.rate is not None else 'scalar', ins, u._num_outputs(), u._special_index])
     consts = [None] * len(sd._constants)
     for v, i in sd._constants.items():
         consts[i] = fr(v)
-    return {'ok': True, 'units': units, 'consts': consts, 'controls': [fr(x) for x in sd._controls]}
+    d = {'ok': True, 'units': units, 'consts': consts, 'controls': [fr(x) for x in sd._controls]}
+    if bad:
+        d['inconsistent'] = bad[:6]
+    return d
 
 
 ERR_KINDS = ('KeyError', 'ValueError', 'TypeError', 'AttributeError', 'GraphFuncError', 'GraphFuncBase',
